@@ -104,7 +104,7 @@ def check_c11(c):
 
 def check_c14(c):
     generic(
-        c, "c14", ["Properties/C14.v"], ["Proofs/SpecProofs.v", "Proofs/SpecWriterProofs.v"],
+        c, "c14", ["Properties/C14.v"], ["Proofs/SpecProofs.v", "Proofs/SpecWriterProofs.v", "Proofs/SpecPaddedProofs.v"],
         what_tie="every file the Go writer emits is judged by the extracted spec decoder (Model/SpecDecoder.v) against its source records; tie: model writer output byte-identical",
         rule=TABLE_RULE + "Each emitted file = one program; C07/C13 histories add every table written by Add and by compaction.",
         nontrivial=lambda cmd, args, impl: impl.startswith("ok:") and len(impl) > 400,
